@@ -57,6 +57,9 @@ RECURSIVE WritesMeaning(_, _, _)
 WritesMeaning(d, ws, k) == IF k > Len(ws) THEN d
                            ELSE WritesMeaning(WriteMeaning(d, ws[k][1], ws[k][2], ws[k][3]), ws, k + 1)
 
+\* fill(v) is a bulk write: every writable entry becomes v, every other entry is unchanged (nothing at all for Identity)
+FillMeaning(st, d, v) == [i \in 1..Len(d) |-> [j \in 1..Len(d) |-> IF Writable(st, i - 1, j - 1) THEN v ELSE d[i][j]]]
+
 BinMeaning(op, da, db) ==
   [i \in 1..Len(da) |-> [j \in 1..Len(da) |->
      IF op \in {"add", "add_assign"} THEN GAdd(da[i][j], db[i][j]) ELSE GSub(da[i][j], db[i][j])]]
@@ -84,6 +87,10 @@ C17_Writes(st, dPre, ws, obsPanic, obsPost) ==
 C17_Write(st, dPre, i, j, v, obsPanic, obsPost) ==
   IF Writable(st, i, j) THEN ~obsPanic /\ obsPost = WriteMeaning(dPre, i, j, v)
                         ELSE obsPanic /\ obsPost = dPre
+
+\* fill(v) on a matrix with storage st: exactly the writable entries read v afterwards; in particular an Identity
+\* matrix still denotes the identity (and must still say so: C17_IsIdentity / C17_Bin / C17_Scalar on what it reads as)
+C17_Fill(st, dPre, v, obsPanic, obsPost) == ~obsPanic /\ obsPost = FillMeaning(st, dPre, v)
 
 \* a (+|-) b of any storage mix is entrywise on the dense meanings
 C17_Bin(op, da, db, obsPanic, obsRes) == ~obsPanic /\ obsRes = BinMeaning(op, da, db)
